@@ -234,7 +234,7 @@ def c02_jobs(tier):
     shapes = [[], [40], [33, 41]] if q else [[]] + [[k] for k in PAYLOAD_KINDS] + [[33, 41], [47, 48]]
     for s in (suites if q else range(9)):
         for role in (0, 1):
-            for mode in range(5):
+            for mode in range(6):
                 for sh in shapes:
                     if q and mode >= 1 and sh == [33, 41] and s != 4:
                         continue
